@@ -11,6 +11,8 @@ import Glb.Driver.Relay
 import Glb.Driver.Progress
 import Glb.Driver.Files
 import Glb.Driver.Json
+import Glb.Driver.Derive
+import Glb.Driver.LogSys
 import Glb.Driver.Daemon
 
 open Glb.Driver
@@ -31,4 +33,6 @@ def main (args : List String) : IO UInt32 := do
   | ["config"] => loop stdin stdout ({} : Config.CfgSt) Config.cfgStep; return 0
   | ["json"] => loop stdin stdout () Json.step; return 0
   | ["utf8"] => loop stdin stdout () Json.step; return 0
+  | ["derive"] => loop stdin stdout ({} : Derive.DSt) Derive.step; return 0
+  | ["logsys"] => loop stdin stdout ({} : LogSys.DSt) LogSys.step; return 0
   | _ => IO.eprintln "usage: driver <stream>"; return 2
